@@ -268,6 +268,8 @@ def template(s, seed):
     t = np.zeros((s, s, s))
     inner = (rng.random((s - 2, s - 2, s - 2)) < 0.45).astype(float)
     inner[(s - 2) // 2, (s - 2) // 2, (s - 2) // 2] = 1.0
+    if seed % 2:  # grey-valued template (density map): values on both sides of the 0.1 threshold, none close to it
+        inner = inner * rng.choice([0.3, 0.6, 1.0], inner.shape) + (1 - inner) * rng.choice([0.0, 0.02, 0.05], inner.shape)
     t[1:-1, 1:-1, 1:-1] = inner
     return t
 
@@ -294,6 +296,9 @@ def run_place(c, out):
     if c["cluster"] and len(parts) > 1:  # pull everything close to the first particle so that stamps overlap
         base = parts[0]["pos"]
         parts = [dict(p, pos=[base[a] + (p["pos"][a] % 5) - 2 for a in range(3)]) for p in parts]
+    ident = next(i_ for i_, M_ in enumerate(CUBES) if np.array_equal(M_, np.eye(3, dtype=int)))
+    if c["tseed"] % 3 == 0:  # an unrotated particle first, general orientations after it
+        parts = [dict(parts[0], rot=ident)] + list(parts[1:])
     n = len(parts)
     C = oracle.MOTL_COLUMNS
     a = np.zeros((n, 20))
@@ -338,6 +343,7 @@ def run_place(c, out):
         cover += (tmp > 0).astype(int)
     out.nontrivial = bool((cover >= 3).any()) or bool(((cover >= 2)).sum() > 0 and n >= 2)
     tl_arg = [tpl.copy() for _ in range(n)] if c["template_list"] else tpl.copy()
+    tpl_keep = tpl.copy()
     kw = {"feature_to_color": feat}
     if prefill is not None:
         kw["volume"] = prefill.copy()
@@ -348,6 +354,8 @@ def run_place(c, out):
         return
     if not out.check(tuple(r.shape) == vol, "place:shape", r.shape):
         return
+    if not c["template_list"]:
+        out.check(np.array_equal(tl_arg, tpl_keep), "place:template_argument_modified", "")
     if not np.array_equal(r, exp):
         diff = np.argwhere(r != exp)
         vals_r = set(np.unique(r[r != exp]).tolist())
